@@ -27,7 +27,9 @@ HowC == {"inc", "swap", "zero"}
 SigModC == {"flip", "trunc", "extend-fix", "extend-nofix", "len+1", "len-1", "len0", "len+2^32", "len+2^63"}
 ProofBitC == {"first", "last", "flags", "mid1", "mid2"}
 KindC == {"raw", "stateful", "roots"}
-TreeC == {"same", "other-changed", "member-deleted", "changed-restored", "restarted", "restarted-member-deleted"}
+\* (the verifier's tree changes through every kind of tree call: single writes, range writes, batch updates)
+TreeC == {"same", "other-changed", "member-deleted", "changed-restored", "restarted", "restarted-member-deleted",
+          "other-changed-batch", "other-changed-range", "member-deleted-batch", "member-overwritten-range"}
 RootsC == {"empty", "cur", "other", "other+cur", "stale", "zero", "zeros", "zero+cur", "straddle1", "straddle8", "straddle16", "straddle31"}
 TamperCases ==
   [what : {"none"}, kind : KindC, tree : TreeC, roots : RootsC]
